@@ -60,6 +60,8 @@ var c14Callables = []c14Callable{
 	{"obj.Ünï", "SS"}, {"pobj.Élan", "SI"},
 	// a pointer-receiver method of a defined type that is not a struct, reached through a pointer
 	{"pstack.Note", "SI"},
+	// functions that are not named by an identifier or a field: taken out of a map / a struct's map
+	{`fns["two"]`, "SI"}, {`tools.Funcs["three"]`, "SSS"}, {`fns["jf"]`, "SSI"},
 }
 
 type c14Methods struct {
@@ -98,6 +100,21 @@ func c14Vars(log *[]string, jfName string) jet.VarMap {
 		return r.note("fv", args...)
 	})
 	vars.Set("g2", func(n int, s string) string { return r.note("g2", n, s) })
+	jfTwin := jet.Func(func(a jet.Arguments) reflect.Value {
+		var args []interface{}
+		for i := 0; i < a.NumOfArguments(); i++ {
+			if v := a.Get(i); v.IsValid() {
+				args = append(args, v.Interface())
+			} else {
+				args = append(args, nil)
+			}
+		}
+		return reflect.ValueOf(r.note(`fns["jf"]`, args...))
+	})
+	vars.Set("fns", map[string]interface{}{"two": func(a string, b int) string { return r.note(`fns["two"]`, a, b) }, "jf": jfTwin})
+	vars.Set("tools", struct {
+		Funcs map[string]func(a, b, c string) string
+	}{map[string]func(a, b, c string) string{"three": func(a, b, c string) string { return r.note(`tools.Funcs["three"]`, a, b, c) }}})
 	vars.Set("id", func(x interface{}) interface{} { return x })
 	ticks := 0
 	vars.Set("tick", func() string { ticks++; return fmt.Sprintf("k%d", ticks) })
@@ -163,6 +180,18 @@ func c14Vars(log *[]string, jfName string) jet.VarMap {
 	vars["nilv"] = reflect.Value{}
 	vars.Set("mm", map[string]interface{}{"k": "v"})
 	vars.Set("bv", []byte("  By Tes  "))
+	// integers that a float64 cannot hold: what a function reads out of its arguments is the integer it was handed
+	vars.Set("big", int64(1<<53+1))
+	vars.Set("bigneg", -(1<<62 + 3))
+	vars.SetFunc("pf64", func(a jet.Arguments) reflect.Value {
+		var n int64
+		var m int
+		if err := a.ParseInto(&n, &m); err != nil {
+			a.Panicf("pf64: %v", err)
+		}
+		return reflect.ValueOf(fmt.Sprintf("pf64(%d,%d)", n, m))
+	})
+	vars.Set("rf64", func(n int64, m int) string { return fmt.Sprintf("rf64(%d,%d)", n, m) })
 	vars.Set("nilobj", (*c14Methods)(nil))
 	vars.Set("sv", "strvar")
 	vars.Set("iv", 7)
@@ -238,6 +267,8 @@ func genC14(t *rapid.T) c14Case {
 			`{{ f2("a", _) }}`, `{{ "a" | f3(_, _, "c") }}`,
 			// a placeholder without anything piped in, also for jet.Func values and built-ins that are jet.Funcs
 			`{{ jf(_, "x") }}`, `{{ uf("a", _) }}`, `{{ map("a", _) }}`, `{{ slice(_) }}`, `{{ pf(_, 1) }}`,
+			// ... where the call is not the command of an action but part of an expression
+			`{{ v := jf(_, "x") }}`, `{{ if jf(_) }}x{{ end }}`, `{{ f1(jf(_, "x")) }}`, `{{ jf(_) + "!" }}`, `{{ "a" | f1(jf(_)) }}`, `{{ v := "" }}{{ v = uf(_) }}`, `{{ range slice(_) }}x{{ end }}`, `{{ isset(map("k", _).k) }}{{ len(slice(_)) }}`,
 			// functions that are nil; arguments that only look convertible
 			`{{ nilfn("a") }}`, `{{ "a" | nilfn }}`, `{{ nilfn: "a" }}`, `{{ fholder.F("a") }}`, `{{ "a" | fholder.F }}`, `{{ niljf("a") }}`,
 			`{{ arr4(xsl) }}`, `{{ xsl | arr4 }}`, `{{ arr2v(xsl) }}`,
@@ -408,6 +439,8 @@ func (c c14Case) apply() (string, []string) {
 			cur = r.note("fd", args...)
 		case "fd1":
 			cur = r.note("fd1", args...)
+		case `fns["two"]`, `tools.Funcs["three"]`:
+			cur = r.note(c14Callables[st.Fn].name, args...)
 		case "pf":
 			cur = r.note("pf", args...)
 		case "lz":
@@ -423,7 +456,7 @@ func (c c14Case) apply() (string, []string) {
 			cur = m.Ünï(args[0].(string), args[1].(string))
 		case "pobj.Élan":
 			cur = m.Élan(args[0].(string), args[1].(int))
-		case "jf", "uf":
+		case "jf", "uf", `fns["jf"]`:
 			// a jet.Func sees the values unconverted: numeric literals stay float64
 			var raw []interface{}
 			k := 0
@@ -550,6 +583,8 @@ func genC14Builtin(t *rapid.T) c14Case {
 		// a method with a pointer receiver that tolerates nil, called on a nil pointer (Go calls it, so does the engine)
 		{"{{ nilobj.NilSafe(\"a\") }}", "nil-receiver:a"}, {"{{ \"a\" | nilobj.NilSafe }}", "nil-receiver:a"}, {"{{ nilobj.NilSafe: \"b\" }}", "nil-receiver:b"},
 		// arguments that are not strings but convert to the parameter type
+		{"{{ pf64(big, bigneg) }}|{{ rf64(big, bigneg) }}", "pf64(9007199254740993,-4611686018427387907)|rf64(9007199254740993,-4611686018427387907)"},
+		{"{{ big | pf64: iv }}|{{ bigneg | pf64(big, _) }}", "pf64(9007199254740993,7)|pf64(9007199254740993,-4611686018427387907)"},
 		{"{{ trimSpace(bv) }}", "By Tes"}, {"{{ bv | upper }}", "  BY TES  "}, {"{{ lower: bv }}", "  by tes  "}, {"{{ hasPrefix(bv, \"  By\") }}", "true"},
 		{"{{ json(" + q(s) + ") | upper }}", esc(strings.ToUpper(js(s)))},
 		{"{{ " + q(s) + " | upper }}", esc(strings.ToUpper(s))},
@@ -605,7 +640,7 @@ func judgeC14Builtin(c c14Case) (v core.Verdict) {
 
 func TestC14(t *testing.T) {
 	core.Run(t, "C14",
-		"abstract call chains (base value, 1-4 stages over reflected Go functions of arity 1-3, a variadic one, one needing int conversion, arguments handed through a function declared to return interface{}, value and pointer methods (two with non-ASCII names) and a jet.Func; piped value at any string position; extra arguments literal or variable, numeric literals converted to int, variadic tails of 0-3) printed in every surface form (nested plain calls, prefix colon, x | f, x | f: a, x | f(a), slots x | f(a, _) and x | f: a, _), all forms compared with the directly applied chain: rendered bytes and a call log showing each stage once, left to right; jet.Func vs reflected variadic twin receive the same arguments; misuse shapes that must be errors incl. nil functions, arguments that only look convertible, placeholders without a piped value for jet.Funcs, variadic tails of non-empty interface types handed values that do not implement them; 24 built-in templates over generated inputs compared with the Go function the docs name; non-trivial = >=2 stages, a slot at position >=1, or a numeric conversion",
+		"abstract call chains (base value, 1-4 stages over reflected Go functions of arity 1-3, a variadic one, one needing int conversion, arguments handed through a function declared to return interface{}, value and pointer methods (two with non-ASCII names) and a jet.Func; piped value at any string position; extra arguments literal or variable, numeric literals converted to int, variadic tails of 0-3) printed in every surface form (nested plain calls, prefix colon, x | f, x | f: a, x | f(a), slots x | f(a, _) and x | f: a, _), all forms compared with the directly applied chain: rendered bytes and a call log showing each stage once, left to right; jet.Func vs reflected variadic twin receive the same arguments; misuse shapes that must be errors incl. nil functions, arguments that only look convertible, placeholders without a piped value for jet.Funcs, variadic tails of non-empty interface types handed values that do not implement them; 24 built-in templates over generated inputs compared with the Go function the docs name; also: functions taken out of a map or a struct's map as call targets (fns[\"two\"], tools.Funcs[\"three\"], a jet.Func in a map) in every call form; integers beyond 2^53 read through Arguments.ParseInto; a placeholder without a pipe where the call is part of an expression / assignment / condition; non-trivial = >=2 stages, a slot at position >=1, or a numeric conversion",
 		genC14, judgeC14)
 }
 
